@@ -215,14 +215,14 @@ def P4c(ctx):
                     g = prog.insts[inst].drops.get(cb, {})
                     # (the model closure `F` itself cannot own objects of an execution; boxes of `dyn Any` are the values of
                     # thread_local! / lazy_static!)
-                    if any(str(o).startswith("dyn:") for o in (g.get("opaque") or [])) and ct["ty"].startswith("rt::"):
+                    if any(str(o).startswith("dyn:") for o in (g.get("opaque") or [])) and "rt::" in ct["ty"]:
                         bad.append((cb, ct["ty"]))
             if bad:
-                for (cb_, ty_) in bad:
-                    ctx.bad("P4c", k, "when an iteration panics, `%s` - which owns values of the model with opaque user destructors (the "
-                            "boxed thread_local! / lazy_static! values) - is dropped by the cleanup of Builder::check, after the model scope "
-                            "has ended: a value that owns a loom Arc panics again in its destructor and the process aborts instead of "
-                            "failing the test" % ty_, site_str(prog, bk, cb_), detail=ty_.split("::")[-2] + "::" + ty_.split("::")[-1])
+                # one finding however the drop of the execution is elaborated (whole `Execution`, or its fields one by one)
+                ctx.bad("P4c", k, "when an iteration panics, the values of the model with opaque user destructors (the boxed thread_local! / "
+                        "lazy_static! values, owned by %s) are dropped by the cleanup of Builder::check, after the model scope has ended: "
+                        "a value that owns a loom Arc panics again in its destructor and the process aborts instead of failing the test" %
+                        ", ".join(sorted({ty_ for (_, ty_) in bad})), site_str(prog, bk, bad[0][0]), detail="user-values")
             else:
                 ctx.ok("P4c", k, "the unwind path of Scheduler::run drops no execution-owned user values", [site_str(prog, bk, b)])
     if n == 0:
